@@ -190,11 +190,13 @@ func dirListing(dir string, broken map[string]bool) [][5]int {
 }
 
 type storeHistOpts struct {
-	nops     int
-	sessions int  // number of open..close sessions (C09)
-	ivf      bool // trained IVF vector template (fresh and freshly trained at every open)
-	restarts int  // the history ends with this many (close + reopen, search) pairs (C09: several sessions in a row)
-	big      int  // the history starts with this many adds of long vectors (segment streams of more than 32 KiB:
+	nops      int
+	sessions  int  // number of open..close sessions (C09)
+	ivf       bool // trained IVF vector template (fresh and freshly trained at every open)
+	restarts  int  // the history ends with this many (close + reopen, search) pairs (C09: several sessions in a row)
+	bigScript bool // with big: right after those adds the memtable is rotated and flushed, the segment caches are
+	// dropped, and two searches follow (they have to read the 32 KiB+ streams back from disk)
+	big int // the history starts with this many adds of long vectors (segment streams of more than 32 KiB:
 	// the gzip reader then hands out short reads in the middle of a record)
 }
 
@@ -293,6 +295,10 @@ func runStoreHistory(r *rand.Rand, o storeHistOpts, t *Trace) *Case {
 		}
 		if step < o.big {
 			x = 0
+		}
+		if o.bigScript && o.big > 0 && step == o.big {
+			script = []int{55, 45, 66, 99, 99}
+			t.Stat("store.big_segment_script")
 		}
 		nextFilter, probeArmed = probeArmed, nil
 		if len(script) > 0 { // the follow-up of an update-in-place: remove that id, flush, look
@@ -782,6 +788,14 @@ func genC08(r *rand.Rand, t *Trace, thorough bool) {
 			t.Emit(runStoreHistory(r, o, t), "store.template.flat")
 		}
 	}
+	// appended (the cases above are what they were): one segment of 175-225 long vectors written, dropped from the
+	// cache and read back within the session, then the usual tail with restarts
+	for it := 0; it < 4+n/40; it++ {
+		o := storeHistOpts{sessions: 2 + r.Intn(2), restarts: 1 + r.Intn(2), big: 175 + r.Intn(50), bigScript: true}
+		o.sessions += o.restarts
+		o.nops = o.big + 10 + r.Intn(8)
+		t.Emit(runStoreHistory(r, o, t), "store.template.flat", "store.big_segment_read_back")
+	}
 }
 
 func genC09(r *rand.Rand, t *Trace, thorough bool) {
@@ -809,6 +823,14 @@ func genC09(r *rand.Rand, t *Trace, thorough bool) {
 		} else {
 			t.Emit(runStoreHistory(r, o, t), "store.template.flat")
 		}
+	}
+	// appended (the cases above are what they were): one segment of 175-225 long vectors written, dropped from the
+	// cache and read back within the session, then the usual tail with restarts
+	for it := 0; it < 4+n/40; it++ {
+		o := storeHistOpts{sessions: 2 + r.Intn(2), restarts: 1 + r.Intn(2), big: 175 + r.Intn(50), bigScript: true}
+		o.sessions += o.restarts
+		o.nops = o.big + 10 + r.Intn(8)
+		t.Emit(runStoreHistory(r, o, t), "store.template.flat", "store.big_segment_read_back")
 	}
 }
 
